@@ -5,6 +5,7 @@ CONSTANTS
   HasTimeout = {j1}
   IgnoresTerm = {j1}
   PopenMayFail = {j1}
+  PreFix = FALSE
   CoarseCancel = FALSE
   Modes = {"nowait", "wait"}
   MaxPreempt = 2
